@@ -133,6 +133,17 @@ func FreshDir() string {
 // RecycleDir empties a cache directory of everything except the v2 skeleton
 // and returns it to the pool.
 func RecycleDir(d string) {
+	// The directory comes back under a NEW path. Whatever still refers to the
+	// old one - the deletion goroutine of the cache instance that used it (it
+	// cannot be stopped), an upload a case gave up waiting for - can then
+	// neither create nor unlink anything in the directory's next life (image
+	// copies of one live directory even carry the same file names).
+	if nd := filepath.Join(ScratchBase(), fmt.Sprintf("d%d", dirSeq.Add(1))); os.Rename(d, nd) == nil {
+		d = nd
+	} else {
+		_ = os.RemoveAll(d)
+		return
+	}
 	ents, err := os.ReadDir(d)
 	if err != nil {
 		return
